@@ -320,3 +320,123 @@ func init() {
 			return liveFileScenario(cases[i].maxAge, cases[i].quiet, b)
 		}})
 }
+
+// ---------------------------------------------------------------------------------------------
+// C14 over a history of cleanups on ONE appender instance: between writes the clock may advance in
+// half-interval steps (landing just after the step or a quarter interval later) - only while no
+// cleanup goroutine is in flight: a goroutine that is delayed for longer than a whole max age before
+// it reads the clock is not a schedule the property is about (it would make the cleanup of the 11:00
+// rotation judge files by the clock of 12:15) - and one writer keeps writing, racing the cleanups
+// (P <= 1), so that files
+// are created, written to again later in their interval, rotated away and aged over up to 4 (thorough
+// 5) clock steps and several cleanups. Oracle, on every removal in the filesystem log: the entry is an
+// own rotated file, is not the file being written, and the modification time it had THEN is older
+// than the maximum age; at the end: every own file older than (time of the last rotation - max age)
+// is gone and every line written within the last max age is still readable.
+// ---------------------------------------------------------------------------------------------
+
+func cleanupHistoryScenario(maxAge int32, writes int, b zzvrt.Bounds) *zzvrt.Scenario {
+	desc := fmt.Sprintf("maxAge=%dh writes=%d", maxAge, writes)
+	start := time.Date(2025, 6, 1, 10, 50, 0, 0, time.UTC)
+	own := regexp.MustCompile(`^app\.log\.\d{14}$`)
+	type wr struct {
+		id string
+		at time.Time
+	}
+	var errS string
+	var ws []wr
+	return &zzvrt.Scenario{
+		Desc:   desc,
+		Before: func() { resetAll(); errS = ""; ws = nil },
+		Opts:   zzvrt.RunOpts{Bounds: b, Start: start},
+		Body: func() {
+			x := zzvrt.Cur()
+			a := &log.RollingFileAppender{FileDir: rollDir, FileName: "app.log", Rotation: log.TimeRotation{Interval: time.Hour}, MaxAge: maxAge}
+			zzvrt.Atomic(func() {
+				x.FS.MkdirAll(rollDir)
+				if err := a.Start(); err != nil {
+					errS = err.Error()
+				}
+			})
+			if errS != "" {
+				return
+			}
+			for i := 0; i < writes; i++ {
+				if k := zzvrt.Choose(zzvrt.SeamClock, 3); k > 0 {
+					zzvrt.WaitQuiescent()
+					x.Now = x.Now.Truncate(30 * time.Minute).Add(30 * time.Minute).Add([]time.Duration{time.Millisecond, 15 * time.Minute}[k-1])
+				}
+				id := fmt.Sprintf("h%d", i)
+				a.Write([]byte(id + "\n"))
+				ws = append(ws, wr{id, x.Now})
+			}
+			zzvrt.WaitQuiescent()
+			// do not Stop: look at the directory as it is while the appender is live
+		},
+		Check: func(x *zzvrt.Exec) (string, []zzvrt.Violation) {
+			key := desc
+			if x.Outcome != "" {
+				return x.Outcome, []zzvrt.Violation{{Clause: "no-" + strings.SplitN(x.Outcome, ":", 2)[0], Key: key, Detail: x.Outcome}}
+			}
+			if errS != "" {
+				return errS, []zzvrt.Violation{{Clause: "setup", Key: key, Detail: errS}}
+			}
+			var v []zzvrt.Violation
+			age := time.Duration(maxAge) * time.Hour
+			var lastCreate time.Time
+			livePath := ""
+			for _, c := range x.FS.Log {
+				switch c.Op {
+				case "open":
+					if c.Err == "" && c.Flag&0x40 != 0 { // O_CREATE
+						lastCreate, livePath = c.At, c.Path
+					}
+				case "remove", "removeall":
+					name := strings.TrimPrefix(c.Path, rollDir+"/")
+					switch {
+					case c.Err != "":
+					case !own.MatchString(name):
+						v = append(v, zzvrt.Violation{Clause: "foreign-or-young-deleted", Key: key, Detail: fmt.Sprintf("%s removed %s, which is not a rotated file of the appender", c.Op, c.Path)})
+					case c.Path == livePath:
+						v = append(v, zzvrt.Violation{Clause: "live-file-deleted", Key: key, Detail: fmt.Sprintf("%s is the file currently being written but was removed at %s", c.Path, c.At.Format("15:04:05.000"))})
+					case !c.MTime.Before(c.At.Add(-age)):
+						v = append(v, zzvrt.Violation{Clause: "foreign-or-young-deleted", Key: key,
+							Detail: fmt.Sprintf("%s, last modified %s, was removed at %s: younger than the maximum age of %dh", c.Path, c.MTime.Format("15:04:05.000"), c.At.Format("15:04:05.000"), maxAge)})
+					}
+				}
+			}
+			names := x.FS.List(rollDir)
+			var all strings.Builder
+			for _, n := range names {
+				node := x.FS.Nodes[rollDir+"/"+n]
+				all.Write(node.Data)
+				if own.MatchString(n) && rollDir+"/"+n != livePath && node.MTime.Before(lastCreate.Add(-age)) {
+					v = append(v, zzvrt.Violation{Clause: "expired-own-file-kept", Key: key,
+						Detail: fmt.Sprintf("%s, last modified %s, is still there after the cleanup of the rotation at %s (max age %dh)", n, node.MTime.Format("15:04:05.000"), lastCreate.Format("15:04:05.000"), maxAge)})
+				}
+			}
+			for _, w := range ws {
+				if !w.at.Before(x.Now.Add(-age)) && !strings.Contains(all.String(), w.id+"\n") {
+					v = append(v, zzvrt.Violation{Clause: "written-line-unreachable", Key: key, Detail: fmt.Sprintf("line %s written at %s (now %s, max age %dh) is in no file of the directory (files %v)", w.id, w.at.Format("15:04:05.000"), x.Now.Format("15:04:05.000"), maxAge, names)})
+				}
+			}
+			return fmt.Sprint(names), v
+		},
+	}
+}
+
+func init() {
+	for _, ma := range []int32{1, 2} {
+		ma := ma
+		register("C14", fmt.Sprintf("c14/cleanup-histories/maxAge=%dh", ma), "qt", func(tier string) *zzvrt.Scenario {
+			b := zzvrt.Bounds{Preempt: 1, Horizon: 8000}
+			b.Env[zzvrt.SeamClock] = 4
+			writes := 5
+			if tier == "thorough" {
+				b.Env[zzvrt.SeamClock] = 5
+				writes = 6
+			}
+			return cleanupHistoryScenario(ma, writes, b)
+		})
+	}
+}
